@@ -61,7 +61,8 @@ Init ==
           hopen |-> [e \in E |-> FALSE],              \* handle.peers contains the peer
           hval |-> [e \in E |-> 0],                   \* id of the validation whose sender handle.pending_validations holds (0 = none)
           nval |-> 0,
-          curv |-> [e \in E |-> 0],                   \* id of the validation request of the substream now being validated
+          curv |-> [e \in E |-> 0],
+          sw |-> [e \in E |-> FALSE],                 \* an open command was ignored while a remote-initiated substream was being handled                   \* id of the validation request of the substream now being validated
           conn |-> "up", ep |-> 1,
           alive |-> [e \in E |-> TRUE],               \* the protocol loop has not panicked
           nOpen |-> [e \in E |-> 0], nClose |-> [e \in E |-> 0], nCut |-> 0, nRec |-> 0, nFail |-> 0, nStall |-> 0,
@@ -76,6 +77,7 @@ Init ==
 \* reported Closed, this report overtakes it in the user's event queue (tag).
 Lagging(x, e) == \E c \in x.ct[e] : ~(x.st[e].k = "open" /\ x.st[e].task = c.id)
 Rep(x, e, k) == [x EXCEPT !.evq[e] = Append(@, [k |-> k, id |-> 0]),
+                          !.sw[e] = IF k \in {"opened", "openfail"} THEN FALSE ELSE @,
                           !.kf = IF Lagging(x, e) THEN @ \cup {"report-overtakes-closed"} ELSE @]
 \* a panic (debug_assert!) of the protocol loop; panics that follow a stale shutdown notice (see
 \* ProtoShutdown) are consequences of that defect and carry its tag
@@ -121,6 +123,9 @@ OnOpenSubstream(x, e) ==
        IF CanOpenSub(x) THEN SetSt(OpenSub(x, e), e, [k |-> "oi", sid |-> x.nsid[e]])
        ELSE Rep(x, e, "openfail")
   ELSE IF s.k = "vp" THEN Rep(x, e, "openfail")
+  \* `_ => {}`: the command is dropped; with an inbound substream in progress and no outbound one the user
+  \* hears of it again only if that substream gets as far as an accepted validation
+  ELSE IF s.k = "val" /\ s.out = "closed" THEN [x EXCEPT !.sw[e] = TRUE]
   ELSE x
 
 \* on_connection_established
@@ -258,7 +263,10 @@ OnHsErr(x, e) ==
   IF s.k = "none" THEN Panic(x1, e, "handshake-peer-missing")
   ELSE IF s.k = "val" THEN
        LET x2 == SetSt(DropState(x1, e), e, Closed(IF s.out = "oi" THEN s.osid ELSE 0)) IN
-       IF s.out # "closed" /\ Mut # "silent_negotiation_error" THEN Rep(x2, e, "openfail") ELSE x2
+       IF s.out # "closed" /\ Mut # "silent_negotiation_error" THEN Rep(x2, e, "openfail")
+       \* the inbound substream died unreported: an open command ignored meanwhile is never answered
+       ELSE IF s.out = "closed" /\ x.sw[e] THEN [x2 EXCEPT !.kf = @ \cup {"ignored-open-never-answered"}, !.sw[e] = FALSE]
+       ELSE x2
   ELSE Panic(SetSt(x1, e, [k |-> "poisoned"]), e, "negotiation-error-unexpected-" \o s.k)
 
 -----------------------------------------------------------------------------
